@@ -55,11 +55,19 @@ def sorted_keys(ctx):
     if not mk:
         ctx.undecided('_new_key_multisig: redeem script construction not found')
     kw = {k.arg: norm(k.value) for k in mk[0].keywords}
+    kwn = {k.arg: k.value for k in mk[0].keywords}
     ctx.saw('redeem script: %s' % kw)
-    ctx.require(kw.get('keys') == 'public_key_list' and kw.get('sigs_required') == 'self.multisig_n_required', q, 'redeem script is built from %s' % kw, mk[0], 'the address does not commit to m of the sorted keys')
-    pk = [n for n in walk_no_nested(fn) if isinstance(n, ast.Assign) and norm(n.targets[0]) == 'public_key_list']
-    ctx.require(bool(pk) and norm(pk[0].value) == '[pubk.key_public for pubk in public_keys]' and (not sorts or pk[0].lineno > sorts[0][0].lineno), q,
-                'the key list of the redeem script is not taken from the sorted cosigner keys', pk[0] if pk else fn)
+    ctx.match(q, 'threshold of the address redeem script', kwn.get('sigs_required'), 'self.multisig_n_required', fn, mk[0], 'the address does not commit to m of the sorted keys')
+    keyvar = kw.get('keys')
+    pk = [n for n in walk_no_nested(fn) if isinstance(n, ast.Assign) and norm(n.targets[0]) == keyvar]
+    if len(pk) != 1 or not isinstance(pk[0].value, ast.ListComp):
+        ctx.unsure('%s: key list `%s` of the redeem script is not a single list comprehension' % (q, keyvar))
+    else:
+        comp = pk[0].value
+        src = norm(comp.generators[0].iter)
+        elt_ok = isinstance(comp.elt, ast.Attribute) and comp.elt.attr == 'key_public'
+        ctx.require(src == 'public_keys' and elt_ok, q, 'the key list of the redeem script is `%s`, not the public keys of the sorted cosigner list' % norm(comp), pk[0])
+        ctx.require(not sorts or pk[0].lineno > sorts[0][0].lineno, q, 'the key list is taken before the cosigner keys are sorted', pk[0], 'cosigner wallets that received the keys in another order derive another address')
     # WalletKey.key_public = stored public key
     wk = ctx.repo.func('wallets:WalletKey.__init__')
     kp = [norm(n.value) for n in ast.walk(wk) if isinstance(n, ast.Assign) and norm(n.targets[0]) == 'self.key_public']
@@ -76,10 +84,11 @@ def sorted_keys(ctx):
     adds = [c for c in ast.walk(fn) if isinstance(c, ast.Call) and norm(c.func) == 'transaction.add_input']
     ctx.floor(len(adds), 2, 'add_input calls in transaction_create')
     for c in adds:
-        kw = {k.arg: norm(k.value) for k in c.keywords}
-        ctx.require(kw.get('sort') == 'self.sort_keys' and kw.get('sigs_required') == 'self.multisig_n_required' and kw.get('keys') == 'inp_keys', q,
-                    'add_input is called with sort=%s sigs_required=%s keys=%s' % (kw.get('sort'), kw.get('sigs_required'), kw.get('keys')), c,
-                    'the redeem script rebuilt for the spend differs from the one of the address')
+        kwn = {k.arg: k.value for k in c.keywords}
+        why = 'the redeem script rebuilt for the spend differs from the one of the address'
+        ctx.match(q, 'argument sort of add_input', kwn.get('sort'), 'self.sort_keys', fn, c, why)
+        ctx.match(q, 'argument sigs_required of add_input', kwn.get('sigs_required'), 'self.multisig_n_required', fn, c, why)
+        ctx.require('keys' in kwn, q, 'add_input is called without the keys of the wallet key', c, why)
     q = 'transactions:Input.__init__'
     fn = ctx.repo.func(q)
     ss = [c for n in walk_no_nested(fn) if isinstance(n, ast.If) and norm(n.test) == 'self.sort' for s in n.body if isinstance(s, ast.Expr) and isinstance(s.value, ast.Call) and norm(s.value.func) == 'self.keys.sort' for c in [s.value]]
@@ -88,8 +97,11 @@ def sorted_keys(ctx):
     q = 'transactions:Input.update_scripts'
     fn = ctx.repo.func(q)
     rs = [c for c in ast.walk(fn) if isinstance(c, ast.Call) and norm(c.func) == 'Script' and any(k.arg == 'script_types' and norm(k.value) == "['multisig']" for k in c.keywords)]
-    kw = {k.arg: norm(k.value) for k in rs[0].keywords} if rs else {}
-    ctx.require(kw.get('keys') == 'self.keys' and kw.get('sigs_required') == 'self.sigs_required', q, 'the spend redeem script is built from %s' % kw, rs[0] if rs else fn)
+    if not rs:
+        ctx.undecided('Input.update_scripts: redeem script construction not found')
+    kwn = {k.arg: k.value for k in rs[0].keywords}
+    ctx.match(q, 'keys of the spend redeem script', kwn.get('keys'), 'self.keys', fn, rs[0])
+    ctx.match(q, 'threshold of the spend redeem script', kwn.get('sigs_required'), 'self.sigs_required', fn, rs[0])
 
 
 @PROP.obligation('C10.script-type', canaries=[
@@ -112,8 +124,12 @@ def script_type(ctx):
     ctx.require(got == exp, q, 'script types per witness type are %s, expected %s' % (got, exp), asg[0], 'cosigner wallets of that type hand out addresses of another type')
     ad = [c for c in ast.walk(fn) if isinstance(c, ast.Call) and norm(c.func) == 'Address']
     kw = {k.arg: norm(k.value) for k in ad[0].keywords} if ad else {}
-    ctx.require(bool(ad) and norm(ad[0].args[0]) == 'redeemscript' and kw == {'script_type': 'script_type', 'network': 'network', 'witness_type': 'witness_type'}, q,
-                'the address is built from %s %s' % (norm(ad[0].args[0]) if ad else '?', kw), ad[0] if ad else fn)
+    if not ad or not ad[0].args:
+        ctx.undecided('_new_key_multisig: Address(...) construction not found')
+    kwn = {k.arg: k.value for k in ad[0].keywords}
+    ctx.match(q, 'data of the multisig address', ad[0].args[0], 'redeemscript', None, ad[0])
+    for name in ('script_type', 'network', 'witness_type'):
+        ctx.match(q, 'argument %s of the multisig address' % name, kwn.get(name), name, None, ad[0])
 
 
 @PROP.obligation('C10.sig-position', canaries=[
@@ -129,14 +145,33 @@ def sig_position(ctx):
     defs = {}
     for n in ast.walk(fn):
         if isinstance(n, ast.Assign):
-            defs.setdefault(norm(n.targets[0]), []).append(norm(n.value))
-    ctx.saw('pub_key_list = %s ; newsig_pos = %s' % (defs.get('pub_key_list'), defs.get('newsig_pos')))
-    ctx.require(defs.get('pub_key_list') == ['[k.public_byte for k in self.inputs[tid].keys]'], q, 'pub_key_list is %s' % defs.get('pub_key_list'), fn)
-    ctx.require(defs.get('newsig_pos') == ['pub_key_list.index(key.public_byte)', 'pub_key_list.index(sig.public_key.public_byte)'], q,
-                'signature positions are computed as %s' % defs.get('newsig_pos'), fn, 'signatures end up out of key order: the spend never verifies')
-    ctx.require(defs.get('sig_domain[newsig_pos]') == ['sig', 'sig'], q, 'sig_domain[newsig_pos] is assigned %s' % defs.get('sig_domain[newsig_pos]'), fn)
-    ctx.require(defs.get('self.inputs[tid].signatures') == ["[s for s in sig_domain if s != '']"], q, 'the signature list is rebuilt as %s' % defs.get('self.inputs[tid].signatures'), fn)
-    ctx.require(defs.get('sig_domain') == ["[''] * n_total_sigs"] and defs.get('n_total_sigs') == ['len(self.inputs[tid].keys)'], q, 'the signature domain is %s of %s' % (defs.get('sig_domain'), defs.get('n_total_sigs')), fn)
+            defs.setdefault(norm(n.targets[0]), []).append(n.value)
+    ctx.saw('pub_key_list = %s ; newsig_pos = %s' % ([norm(v) for v in defs.get('pub_key_list', [])], [norm(v) for v in defs.get('newsig_pos', [])]))
+    want = {
+        'pub_key_list': ['[k.public_byte for k in self.inputs[tid].keys]'],
+        'newsig_pos': ['pub_key_list.index(key.public_byte)', 'pub_key_list.index(sig.public_key.public_byte)'],
+        'sig_domain[newsig_pos]': ['sig', 'sig'],
+        'self.inputs[tid].signatures': ["[s for s in sig_domain if s != '']"],
+        'sig_domain': ["[''] * n_total_sigs"],
+        'n_total_sigs': ['len(self.inputs[tid].keys)'],
+    }
+    why = 'signatures end up out of key order: the spend never verifies'
+    for name, exps in want.items():
+        got = defs.get(name)
+        if got is None or len(got) != len(exps):
+            ctx.unsure('%s: `%s` is assigned %s times, the rule knows %d (renamed or restructured)' % (q, name, len(got or []), len(exps)))
+            continue
+        for g, e in zip(got, exps):
+            if norm(g) == e:
+                continue
+            # a position / key list built from something else than the key order is the violation this rule is about
+            txt = norm(g)
+            if name == 'newsig_pos' and '.index(' in txt and 'public_byte' in txt and 'pub_key_list' in txt:
+                ctx.unsure('%s: signature position `%s` not recognised' % (q, txt))
+            elif name in ('newsig_pos', 'pub_key_list', 'self.inputs[tid].signatures'):
+                ctx.violate(q, '`%s` is computed as `%s`, expected `%s`' % (name, txt, e), g, why)
+            else:
+                ctx.unsure('%s: `%s` is `%s`, expected `%s`' % (q, name, txt, e))
 
 
 @PROP.obligation('C10.live-binding', canaries=[
@@ -246,14 +281,23 @@ def import_fields(ctx):
                 if node is None:
                     ctx.undecided('%s: dictionary branch not found' % q)
             body = node.body
-        create = [i for i, s in enumerate(body) if isinstance(s, ast.Assign) and norm(s.targets[0]) == 'rt' and 'self.transaction_create(' in norm(s.value)]
+        create = [i for i, s in enumerate(body) if isinstance(s, ast.Assign) and isinstance(s.targets[0], ast.Name) and 'self.transaction_create(' in norm(s.value)]
         if not create:
             ctx.undecided('%s (%s): transaction_create call not found' % (q, branch))
-        after = {norm(s.targets[0]): norm(s.value) for s in body[create[0] + 1:] if isinstance(s, ast.Assign)}
-        ctx.saw('%s [%s]: after transaction_create rt.locktime = %s, rt.version = %s' % (q.split('.')[-1], branch or 'raw', after.get('rt.locktime'), after.get('rt.version')))
-        ctx.require(after.get('rt.locktime') == lt, q, 'path %s: rt.locktime is %s after transaction_create' % (branch or 'raw', 'assigned ' + after['rt.locktime'] if 'rt.locktime' in after else 'not restored'), body[create[0]],
-                    'an importing wallet with anti fee sniping replaces nLockTime 0 by the block height: the earlier signatures no longer match')
-        ctx.require(after.get('rt.version') == ver, q, 'path %s: rt.version is %s after transaction_create' % (branch or 'raw', after.get('rt.version')), body[create[0]])
+        var = body[create[0]].targets[0].id
+        after = {norm(s.targets[0]): s.value for s in body[create[0] + 1:] if isinstance(s, ast.Assign)}
+        ctx.saw('%s [%s]: after transaction_create %s.locktime = %s, %s.version = %s' % (q.split('.')[-1], branch or 'raw', var, norm(after[var + '.locktime']) if var + '.locktime' in after else None,
+                                                                                    var, norm(after[var + '.version']) if var + '.version' in after else None))
+        if var + '.locktime' not in after:
+            ctx.violate(q, 'path %s: the locktime of the imported transaction is not restored after transaction_create' % (branch or 'raw'), body[create[0]],
+                        'an importing wallet with anti fee sniping replaces nLockTime 0 by the block height: the earlier signatures no longer match')
+        else:
+            ctx.match(q, 'path %s: locktime restored after transaction_create' % (branch or 'raw'), after[var + '.locktime'], lt, fn, body[create[0]],
+                      'the imported transaction has another nLockTime than the one that was signed')
+        if var + '.version' not in after:
+            ctx.violate(q, 'path %s: the version of the imported transaction is not restored after transaction_create' % (branch or 'raw'), body[create[0]])
+        else:
+            ctx.match(q, 'path %s: version restored after transaction_create' % (branch or 'raw'), after[var + '.version'], ver, fn, body[create[0]])
     seq = [n for n in ast.walk(tc) if isinstance(n, ast.Assign) and norm(n.targets[0]) == 'sequence' and norm(n.value) == 'inp.sequence']
     ctx.require(bool(seq), 'wallets:Wallet.transaction_create', 'Input objects do not keep their sequence', tc)
     # dictionary path: sequence
